@@ -1,0 +1,8 @@
+//go:build verif
+
+package observation
+
+// VerifLen reports the number of registered observations.
+func (h *Handler[C]) VerifLen() int {
+	return h.observations.Length()
+}
